@@ -50,13 +50,13 @@ func genC08(r *sim.Rand, tier string) *sim.Program {
 	uid := func() []byte { return r.Bytes(r.PickInt(0, 0, 1, 16, 17, 64, 200, 8191)) }
 	p.SetCB("ida", uid())
 	p.SetCB("idb", uid())
-	p.SetC("klen", r.PickInt(1, 16, 16, 32, 33, 48, 100, 200))
+	p.SetC("klen", r.PickInt(1, 16, 16, 32, 33, 48, 100, 200, 225, 300, 1000))
 	p.SetC("conf", r.Weighted(1, 3))
 	ns := r.Range(1, 3)
 	for i := 0; i < ns; i++ {
 		fault := 0
 		if r.Chance(1, 2) {
-			fault = r.Range(1, 9)
+			fault = r.Range(1, 11)
 		}
 		// impl A, impl B, fault kind, message index (0..2), position, value, scalar seeds
 		degenerate := 0
@@ -292,6 +292,41 @@ func execC08(t *testing.T, p *sim.Program, c *sim.Ctx) {
 			if e1 != nil || e2 != nil || !bytes.Equal(s1, s2) || !bytes.Equal(s1, want) {
 				c.Fail("ecdh-mismatch", i, op.K, "plain ECDH: the two directions or the model disagree (%v %v)", e1, e2)
 			}
+			// ONE peer key object used again and again: every use gives the model's value, whatever the object was used for before
+			pb2, e3 := ecdh.P256().NewPublicKey(sm2m.MarshalUncompressed(PB))
+			dC := scalar(i+7, "ecdh-c")
+			ec, e4 := ecdh.P256().NewPrivateKey(dC.FillBytes(make([]byte, 32)))
+			if e3 != nil || e4 != nil {
+				c.Fail("ecdh-key", i, op.K, "ecdh refused a valid key: %v %v", e3, e4)
+				return
+			}
+			wantC := sm2m.ScalarMult(dC, PB).X.FillBytes(make([]byte, 32))
+			for round := 0; round < 2 && !c.Failed(); round++ {
+				for _, pk := range []*ecdh.PublicKey{pb2, eb.PublicKey()} {
+					sa, ea1 := ea.ECDH(pk)
+					sc, ec1 := ec.ECDH(pk)
+					if ea1 != nil || ec1 != nil || !bytes.Equal(sa, want) || !bytes.Equal(sc, wantC) {
+						c.Fail("ecdh-mismatch", i, op.K, "plain ECDH with a peer key OBJECT that was used before (round %d) differs from the model (%v %v)", round, ea1, ec1)
+						break
+					}
+				}
+			}
+			if !c.Failed() {
+				c.Hit("probe:peer-key-object-reused")
+				// implicit-signature agreement with the used object as the peer's static key = with a fresh object
+				eph, _ := ecdh.P256().NewPrivateKey(scalar(i+8, "ecdh-e").FillBytes(make([]byte, 32)))
+				fresh, _ := ecdh.P256().NewPublicKey(sm2m.MarshalUncompressed(PB))
+				if eph != nil && fresh != nil {
+					v1, m1 := ea.SM2MQV(eph, pb2, ec.PublicKey())
+					v2, m2 := ea.SM2MQV(eph, fresh, ec.PublicKey())
+					if (m1 == nil) != (m2 == nil) || (m1 == nil && !bytes.Equal(v1.Bytes(), v2.Bytes())) {
+						c.Fail("ecdh-mismatch", i, op.K, "SM2MQV with a peer key object that was used for plain ECDH before differs from SM2MQV with a fresh object of the same key (%v / %v)", m1, m2)
+					}
+				}
+				if !bytes.Equal(pb2.Bytes(), sm2m.MarshalUncompressed(PB)) {
+					c.Fail("ecdh-mismatch", i, op.K, "the peer key object no longer serialises to its key")
+				}
+			}
 			// the sm2 key converts to the same ecdh key
 			if k, err := privA.ECDH(); err != nil || !bytes.Equal(k.Bytes(), ea.Bytes()) || !bytes.Equal(k.PublicKey().Bytes(), ea.PublicKey().Bytes()) {
 				c.Fail("ecdh-conversion", i, op.K, "sm2.PrivateKey.ECDH() does not give the same key")
@@ -305,7 +340,7 @@ func execC08(t *testing.T, p *sim.Program, c *sim.Ctx) {
 		c.Nontriv = true
 		implA, implB := op.Int(0)&1, op.Int(1)&1
 		fault, fmsg, fpos, fval := op.Int(2), ((op.Int(3)%3)+3)%3, op.Int(4), byte(op.Int(5))
-		if fault < 0 || fault > 9 {
+		if fault < 0 || fault > 11 {
 			fault = 0
 		}
 		if fval == 0 {
@@ -687,6 +722,19 @@ func c08Fault(c *sim.Ctx, f int, targeted bool, m, prev []byte, pos int, val byt
 		}
 	case 9:
 		return nil
+	case 10, 11: // a NON-CANONICAL encoding congruent to a real point: ordinate y + p (10) or abscissa x + p (11)
+		if len(out) >= 65 {
+			pt := sm2m.SmallYPoint(pos)
+			if f == 11 {
+				pt = sm2m.SmallXPoint(pos)
+			}
+			if enc, ok := sm2m.NonCanonical(pt, 11-f); ok {
+				copy(out, enc)
+				c.Hit("fault:point-non-canonical-congruent")
+				break
+			}
+		}
+		out[pos%len(out)] ^= val
 	}
 	return out
 }
